@@ -112,7 +112,17 @@ template <class C> static Str giant_key_obs(size_t n, int plus, int nb) {
     typedef Api<C> A; size_t bytes = (n + 1) * sizeof(C); C *t = (C *)mmap(0, bytes, PROT_READ | PROT_WRITE, MAP_PRIVATE | MAP_ANONYMOUS | MAP_NORESERVE, -1, 0); if (t == (C *)MAP_FAILED) return "no memory for the test text";
     for (size_t i = 0; i < n; i++) t[i] = (C)'k'; t[n] = 0;
     typename A::QList item; item.key = t; item.value = 0; item.next = 0; int req = -7; int rc = A::ComposeQueryCharsRequiredEx(&item, &req, plus, nb);
-    munmap(t, bytes); return fmt("rc=%d", rc) + (rc == URI_SUCCESS ? fmt(" req=%d", req) : Str());
+    Str r = fmt("rc=%d", rc) + (rc == URI_SUCCESS ? fmt(" req=%d", req) : Str());
+    // the allocating variant with a manager that only records what it is asked for and refuses: the request, counted in characters, is the same in both APIs
+    if (rc == URI_SUCCESS) { struct Rec { UriMemoryManager mm; size_t asked; int calls; } rec; rec.asked = 0; rec.calls = 0; rec.mm.userData = &rec;
+        rec.mm.malloc = [](UriMemoryManager *m, size_t n) -> void * { Rec *q = (Rec *)m->userData; q->asked = n; q->calls++; errno = ENOMEM; return (void *)0; };
+        rec.mm.calloc = [](UriMemoryManager *m, size_t a, size_t b) -> void * { Rec *q = (Rec *)m->userData; q->asked = (b && a > (size_t)-1 / b) ? (size_t)-1 : a * b; q->calls++; errno = ENOMEM; return (void *)0; };
+        rec.mm.realloc = [](UriMemoryManager *m, void *, size_t n) -> void * { Rec *q = (Rec *)m->userData; q->asked = n; q->calls++; return (void *)0; };
+        rec.mm.reallocarray = [](UriMemoryManager *m, void *, size_t a, size_t b) -> void * { Rec *q = (Rec *)m->userData; q->asked = a * b; q->calls++; return (void *)0; };
+        rec.mm.free = [](UriMemoryManager *, void *) {};
+        C *out = 0; int rc2 = A::ComposeQueryMallocExMm(&out, &item, plus, nb, &rec.mm);
+        r += fmt(" malloc-variant rc=%d calls=%d asked_chars=%zu rest=%zu", rc2, rec.calls, rec.asked / sizeof(C), rec.asked % sizeof(C)); }
+    munmap(t, bytes); return r;
 }
 void run(Ctx &ctx) {
     Local lc; Diff d(ctx, lc); bool q = ctx.quick(); int sz = ctx.secondary ? 0 : q ? 1 : 2;
@@ -137,6 +147,7 @@ void run(Ctx &ctx) {
       for (auto &p0 : ab) for (auto pre : { "s:", "s://h" }) { if (!ctx.mine(idx++)) continue; if (ctx.expired()) break; Str src = Str(pre) + p0; if (!ref::is_uri_reference(src)) continue;
           for (auto b0 : { "/a/b", "/a/", "/", "/a/c:d/x", "/b" }) { Str bs = Str(pre) + b0; d.two(src, bs, 1, 0); d.two(src, bs, 1, 1); } } }
     for (auto &s : norm) { if (ctx.expired()) break; if (!ctx.mine(idx++)) continue; for (unsigned m : { 63u, 8u, 4u, 1u, 2u, 48u, 0u }) for (int o = 0; o < 2; o++) d.normalize(s, m, o); }
+    for (int c = 1; c < 256; c++) { Str x(1, (char)c); for (int p = 0; p < 2; p++) for (int n = 0; n < 2; n++) { if (!ctx.mine((uint64_t)c)) continue; d.escape(x, p, n); d.escape("a" + x + "b", p, n); } d.filename("/" + x); d.filename("C:\\" + x); }   // every byte value: char is signed, wchar_t is not
     all_strings(ctx, Str("a +%\r\n\xff~", 8), ctx.secondary ? 3 : q ? 4 : 5, [&](const Str &s) { for (int p = 0; p < 2; p++) for (int n = 0; n < 2; n++) d.escape(s, p, n); });
     all_strings(ctx, Str("%0aAdg+\r\n", 9), ctx.secondary ? 3 : q ? 5 : 6, [&](const Str &s) { for (int p = 0; p < 2; p++) for (int m = 0; m < 4; m++) d.unescape(s, p, m); });
     all_strings(ctx, "&=a+%41", ctx.secondary ? 3 : q ? 5 : 6, [&](const Str &s) { d.dissect(s, 1, URI_BR_DONT_TOUCH); d.dissect(s, 0, URI_BR_TO_CRLF); });
